@@ -27,4 +27,5 @@ def run(ctx, rep):
     rep.run(RG.rule_comments_skipped_before_every_token, ctx, rep, "L5")
     rep.run(RF.rule_universal_newlines, ctx, rep, "L6")
     rep.run(RF.rule_text_reaches_the_parser_as_read, ctx, rep, "L7")
+    rep.run(RF.rule_parser_keeps_tabs, ctx, rep, "L8")
     rep.run(RF.rule_locals_defined, ctx, rep, "U1", packages=("gtwrap/interface_parser",), min_functions=3)
